@@ -20,3 +20,27 @@ def register(claim):
     claim("C01", "Coq proof (refinement to Butcher-tableau step, order conditions, exactness laws) + vm_compute correspondence; convergence clause partial",
           "EF/RK2/RK4 as coded equal the explicit Runge-Kutta step of their tableau (stage positions and fractional times) for every velocity oracle; tableaux satisfy the order conditions through 1/2/4; exact to order p on linear fields and as quadrature; same for ladim.analytical. Convergence for arbitrary smooth fields is not proved (stated partial). Tied to tracker.py/analytical.py by differential evaluation on polynomial fields incl. clipped stages, and end to end through the ROMS forcing.",
           BASE + "tolerance 1e-11; Butcher's theorem not formalised.", "DESIGN.md section 6 C01")
+    claim("C04", "Coq proof (refinement of the cursor machine to the schedule spec, induction over steps) + vm_compute correspondence",
+          "For every table in simulation order on the time grid, every window, mult>=0, both directions, cold and warm: the cursor machine appends at each step exactly the scheduled rows (mult copies, file order), nothing else; continuous mode per tick; start-up refusal iff no row in the window. Tied to release.py by text release files driven through the real ParticleReleaser/TimeKeeper/State.",
+          BASE + "pandas CSV/date parsing is glue covered by the correspondence only; table sorted in simulation order (hypothesis forced by the blind cursor).", "DESIGN.md section 6 C04")
+    claim("C06", "Coq proof (layout invariants by induction over records; lookup lemmas) + vm_compute correspondence",
+          "Retrieval by cumulative particle_count returns exactly the k-th snapshot for any record sequence (zero-particle records included), counts sum to the instance arrays, particle variables hold every released pid's value at index pid, dense rows hold value iff alive. Tied to out_netcdf.py by generated histories through the real State/Output with files read back.",
+          BASE + "NetCDF library trusted to store what it is given; lossless datatypes.", "DESIGN.md section 6 C06")
+    claim("C07", "Coq proof (invariant of the cursor machine for all N, p, numrec; ceiling-division lemmas) + vm_compute correspondence",
+          "For all N>=0, p>=1, numrec>=0 the machine never writes to a closed file, writes exactly the records of steps k*p<N in order, files hold numrec records (last fewer), all closed, numbered consecutively; split = unsplit. Tied to out_netcdf.py/main.py by complete enumeration of an (N,p,numrec) box on the real Output plus end-to-end runs.",
+          BASE + "period a multiple of dt.", "DESIGN.md section 6 C07")
+    claim("C12", "Coq proof (order lemmas over Q, monotone stretching curves over R, clamp identity) + vm_compute / interval correspondence",
+          "sdepth ordered/interleaved within [-h,0] for any increasing stretching array; all three stretching curves strictly increasing from -1 to 0 (real analysis); z2s index in 1..N-1, weight in [0,1], weighted depth = clamped depth, for N>=2 and any depth. Tied to ROMS.py by differential evaluation (exact and 1e-9 streams), interval-checked s_stretch samples, real Grid from file and Vinfo.",
+          BASE + "theorems over R depend on the standard real-number axioms (listed in evidence); N=1 is a known finding.", "DESIGN.md section 6 C12")
+    claim("C02", "Coq proof (algebraic laws of the kernels, index-shift/subgrid independence) + vm_compute correspondence",
+          "Trilinear result is a convex combination of the eight nodes, exact on fields linear in x,y on the levels through the C-grid stagger for every legal subgrid, independent of the subgrid, zero through land faces, scalar = own cell, packed scaling. Tied to ROMS.py by the public kernels on generated arrays and a real Grid+Forcing on generated files (bathymetry, masks, subgrids, f8/f4/int16).",
+          BASE + "K/A from the level search are inputs (C12 proves their range); float rounding not modelled.", "DESIGN.md section 6 C02")
+    claim("C17", "Coq proof (index arithmetic in bounds for all shapes/positions in the clip box) + vm_compute correspondence; memory effect partial",
+          "Every index read by trilinear (through sample3DUV) and by the nearest sampler is inside the arrays for every position of the clip box (valid region and clipped RK stages), any depth level 1<=K<=N-1. Tied by index-recording runs of the kernels' Python bodies, in-process simulations and NUMBA_BOUNDSCHECK=1 subprocess runs.",
+          BASE + "the effect of an out-of-range read in compiled code cannot be exhibited by the model (partial).", "DESIGN.md section 6 C17")
+    claim("C11", "Coq proof (coefficient algebra over R and Q, draw-index injectivity, L2 orthogonality) + vm_compute correspondence; distribution trusted",
+          "Displacement = c*xi with c^2 = 2D dt/dx^2 (2 Dz dt vertical); every (step, particle, direction) uses its own draw; squared norms add (variance 2Dt) and different particles/directions/steps are orthogonal in the constructed L2 model; no draws when off. Tied to tracker.py with an injected generator whose draws the harness reproduces; cloud statistics at 6 sigma as a sanity test.",
+          BASE + "that numpy's normals are i.i.d. N(0,1) is numpy's contract (not proved); real-number axioms for the sqrt identities.", "DESIGN.md section 6 C11")
+    claim("C16", "Coq proof (sampler laws, Newton post-condition, affine exactness, in-bounds iteration) + vm_compute correspondence; Newton convergence on curved grids partial",
+          "sample2D exact on bilinear fields, convex, mask renormalisation, outside_value (0 included); bilin_inv's return through its test bounds the residual; one Newton pass is exact on affine grids so ll2xy(xy2ll p) = p there; xy2ll equals sampling the full arrays for every subgrid; every read of the iteration is in bounds. Tied by sample2D/bilin_inv streams, real Grid on generated conformal grids, end-to-end lon/lat release and output.",
+          BASE + "convergence of the 7-pass Newton iteration on arbitrary conformal grids is covered by the correspondence only.", "DESIGN.md section 6 C16")
